@@ -7,7 +7,7 @@ class C23(Spec):
     harness = "h_c23"
     lean_deps = ("C21", "C22")
     required_theorems = ("C23.len_le_count", "C23.nodup", "C23.excluded_absent", "C23.none_expired",
-                         "C23.non_eth_keep_order", "C23.eth_consecutive")
+                         "C23.non_eth_keep_order", "C23.eth_consecutive", "C23.eth_up_to_first_gap")
     level_text = (
         "Lean theorems about a model of getTxList/filterTxList (walk in arrival order, exclusion set, isExpired for "
         "the next block by age/height/time/TxHeight, count cut) and sortEthSignTyTx (per-sender nonce chains from "
